@@ -34,7 +34,10 @@ def _entries(tier, seed, reduced):
             sig = tuple(sorted((k, str(v)) for k, v in p.items() if k not in ("layout", "n", "mol", "dims", "offset", "extra", "which", "i", "nt", "batch_first", "inplace")))
             first.setdefault(sig, idx)
             last[sig] = idx
-        keep = sorted(set(first.values()) | set(last.values()))
+        # ... and every body on a pruned grid (shells of different angular sizes inside one call: a per-shell quantity
+        # that is wrongly shared between threads only matters there)
+        pruned = [i for i, p in enumerate(tab) if "pruned" in str(p.get("layout", ""))]
+        keep = sorted(set(first.values()) | set(last.values()) | set(pruned))
         tab = [tab[i] for i in keep]
     return [dict(p, seed=seed) for p in tab]
 
@@ -98,7 +101,13 @@ def main():
         # body).  So the candidate is explored in the attributed body and in the first bodies of a
         # fixed priority list (whole-pipeline bodies first) that actually execute the racing accesses.
         attributed = json.loads(cand["entry"]) if isinstance(cand["entry"], str) else cand["entry"]
-        prio = []
+        # bodies on a pruned two-atom grid first: shells of different sizes and several atoms inside one call are what
+        # makes a wrongly shared per-shell / per-atom quantity change the result
+        prio = [{"entry": "c05", "op": "angc", "dir": "fwd", "layout": "HF-8x50-l3-pruned"},
+                {"entry": "c05", "op": "angc", "dir": "bwd", "layout": "HF-8x50-l3-pruned"},
+                {"entry": "c05", "op": "rad2orb", "dir": "fwd", "layout": "HF-8x50-l3-pruned", "which": "out"},
+                {"entry": "nldf_feat", "layout": "HF-8x50-l3-pruned", "fam": "VIJ", "plan": "gaussian", "nspin": 1},
+                {"entry": "grad", "layout": "HF-4x14-l2", "fam": "VIJ", "interp": "onsite_direct"}]
         for fam in ("VIJ", "VK", "VJ", "VI"):
             for interp in ("onsite_direct", "train_gen"):
                 prio.append({"entry": "gen_build", "layout": "He-5x14-l2", "fam": fam, "interp": interp})
@@ -130,7 +139,7 @@ def main():
                 continue
             if probe.race_hits > 0:
                 bodies.append(q)
-            if len(bodies) >= (3 if tier == "quick" else 6):
+            if len(bodies) >= (4 if tier == "quick" else 8):
                 break
         total = {"executions": 0, "race_hits": 0, "verdict": "schedule-independent within bound", "npcs": len(pcs),
                  "bodies": [json.dumps(b, sort_keys=True) for b in bodies]}
